@@ -8,8 +8,9 @@
    via_bytes: a Renderer fed by decoding an Encoder's bytes ends in exactly the state of a Renderer fed the
    program's written-and-read-back form (C01's expect) — so the two pipelines differ by the number
    quantisation of C01/C08 and nothing else; how far the rasteriser activity moves under that quantisation
-   is not bounded by a theorem (the correspondence run compares the two pipelines' rasteriser logs:
-   identical for exactly representable input). *)
+   is not bounded by a theorem; via_bytes_exact: when every number of the program is exactly representable in
+   its written form (expect = the program itself) the two Renderers end in the same state, rasteriser log
+   included (the correspondence run compares the two pipelines' logs on such programs). *)
 From Coq Require Import ZArith Bool List.
 From IVG Require Import SF NumCodec Color Calls Decoder Encoder Render Arc RenderProofs Generator SelProofs RoundTrip MetaRT Transcode VbMono.
 Import ListNotations.
@@ -45,6 +46,15 @@ Theorem via_bytes : forall e0 vb pal body s,
             rrun32 s (fst (decode_calls [] b)) = rrun32 s (CReset (m_vb (meta_of vb pal)) pal :: expect false false body).
 Proof. exact VbMono.via_bytes_valid. Qed.
 Print Assumptions via_bytes.
+
+Theorem via_bytes_exact : forall e0 vb pal body s,
+  wf_vb vb -> viewbox_invalid vb = false -> wf_pal pal -> wf_acts false body ->
+  expect false false body = acts_calls body -> m_vb (meta_of vb pal) = vb ->
+  exists b, snd (enc_bytes (fst (enc_run e0 (ACall (CReset vb pal) :: body)))) = BytesOk b /\
+            snd (decode_calls [] b) = Done /\
+            rrun32 s (fst (decode_calls [] b)) = rrun32 s (CReset vb pal :: acts_calls body).
+Proof. exact VbMono.via_bytes_exact. Qed.
+Print Assumptions via_bytes_exact.
 
 (* the failing history of the repaired defect: SetCSel 63 then 12 incrementing writes *)
 Example ex_wrap :
